@@ -3,11 +3,11 @@
 
 class Run:
     def __init__(self, name, harness, defines=None, std='c++17', exc=False, entry='harness', preempt=2, faults=1, covers=0, optional_covers=(),
-                 native=('gxx-O0-san', 'gxx-O2'), bounds='', budget_s=900, max_path_steps=400000, own_new=False, max_witnesses=12, opt=None):
+                 native=('gxx-O0-san', 'gxx-O2'), bounds='', budget_s=900, max_path_steps=400000, own_new=False, max_witnesses=12, opt=None, shared_points=False, mt=False):
         self.name = name; self.harness = harness; self.defines = dict(defines or {}); self.std = std; self.exc = exc; self.entry = entry
         self.preempt = preempt; self.faults = faults; self.covers = covers; self.optional_covers = tuple(optional_covers)
         self.native = list(native) if native else []; self.bounds = bounds; self.budget_s = budget_s; self.max_path_steps = max_path_steps
-        self.own_new = own_new; self.max_witnesses = max_witnesses; self.opt = opt
+        self.own_new = own_new; self.max_witnesses = max_witnesses; self.opt = opt; self.shared_points = shared_points; self.mt = mt
 
 
 class Prop:
@@ -199,6 +199,24 @@ PROPS['C12'] = Prop(
               Run('argument_adapter', 'filters.cpp', {'TK': 6}, covers=8, optional_covers=(0, 1, 2, 3, 4, 5, 6, 7), bounds='as quick')],
     outside='more than K steps; filters that add/remove filters while running (CallbackList nesting rules, C02); HeterEventQueue + MixinHeterFilter (does not compile in the unmodified library: private PrototypeList alias)',
     assumptions=['filter verdicts and rewrites are fresh symbolic values on every dispatch'])
+
+_TH = ('%s, Threading = %s; initial list [A, B] with shared handles; T=%d threads x S=%d operations each chosen from append / prepend / insert-before-B / remove B / remove A / ownsHandle B / empty / invoke; '
+       'every schedule with at most P=%d preemptions; scheduling points: %s')
+_SP_HOOKS = 'every mutex / atomic / condition-variable operation of the instrumented policy'
+_SP_AUTO = _SP_HOOKS + ' plus every plain load/store from eventpp code to a heap/global object another thread has touched (automatic points; engine verdict only, not natively replayable)'
+PROPS['C03'] = Prop(
+    quick=[Run('cl_threads_s1_hooks_p2', 'cl_threads.cpp', {'TT': 2, 'SS': 1}, preempt=2, covers=4, optional_covers=(2,), mt=True, bounds=_TH % ('CallbackList', 'instrumented policy', 2, 1, 2, _SP_HOOKS)),
+           Run('cl_threads_s2_hooks_p1', 'cl_threads.cpp', {'TT': 2, 'SS': 2, 'OPSET': 1}, preempt=1, covers=4, mt=True, bounds=_TH % ('CallbackList', 'instrumented policy', 2, 2, 1, _SP_HOOKS) + '; reduced operation alphabet (append, prepend, insert-before-B, remove B, ownsHandle B, invoke)'),
+           Run('cl_threads_s1_auto_p2', 'cl_threads.cpp', {'TT': 2, 'SS': 1}, preempt=2, covers=4, optional_covers=(2,), mt=True, shared_points=True, native=(), bounds=_TH % ('CallbackList', 'instrumented policy', 2, 1, 2, _SP_AUTO)),
+           Run('cl_threads_s1_empty_hooks_p2', 'cl_threads.cpp', {'TT': 2, 'SS': 1, 'INIT': 0}, preempt=2, covers=4, optional_covers=(0, 1, 2), mt=True, bounds=_TH % ('CallbackList', 'instrumented policy', 2, 1, 2, _SP_HOOKS) + '; list initially EMPTY (handles A, B are empty handles)'),
+           Run('disp_threads_s1_hooks_p2', 'cl_threads.cpp', {'TT': 2, 'SS': 1, 'DISP': 1}, preempt=2, covers=4, optional_covers=(2,), mt=True, bounds=_TH % ('EventDispatcher', 'instrumented policy', 2, 1, 2, _SP_HOOKS))],
+    thorough=[Run('cl_threads_s2_hooks_p2', 'cl_threads.cpp', {'TT': 2, 'SS': 2}, preempt=2, covers=4, mt=True, budget_s=1700, bounds=_TH % ('CallbackList', 'instrumented policy', 2, 2, 2, _SP_HOOKS)),
+              Run('cl_threads_s2_auto_p1', 'cl_threads.cpp', {'TT': 2, 'SS': 2, 'OPSET': 1}, preempt=1, covers=4, mt=True, shared_points=True, native=(), budget_s=1700, bounds=_TH % ('CallbackList', 'instrumented policy', 2, 2, 1, _SP_AUTO) + '; reduced alphabet'),
+              Run('cl_threads_s2_empty_hooks_p2', 'cl_threads.cpp', {'TT': 2, 'SS': 2, 'INIT': 0, 'OPSET': 1}, preempt=2, covers=4, optional_covers=(0, 1), mt=True, budget_s=1700, bounds=_TH % ('CallbackList', 'instrumented policy', 2, 2, 2, _SP_HOOKS) + '; list initially empty; reduced alphabet'),
+              Run('cl_threads_t3_hooks_p2', 'cl_threads.cpp', {'TT': 3, 'SS': 1, 'OPSET': 2}, preempt=2, covers=4, optional_covers=(2,), mt=True, budget_s=1700, bounds=_TH % ('CallbackList', 'instrumented policy', 3, 1, 2, _SP_HOOKS) + '; alphabet append / insert-before-B / remove B / invoke'),
+              Run('disp_threads_s2_hooks_p1', 'cl_threads.cpp', {'TT': 2, 'SS': 2, 'DISP': 1, 'OPSET': 1}, preempt=1, covers=4, mt=True, budget_s=1700, bounds=_TH % ('EventDispatcher', 'instrumented policy', 2, 2, 1, _SP_HOOKS) + '; reduced alphabet')],
+    outside='more than T threads / S operations per thread / P preemptions; weak memory orderings (SC only); data races in the C++ sense on unlocked reads are modelled as atomic accesses at the scheduling points; the reference counting inside std::shared_ptr is executed atomically',
+    assumptions=['linearizability oracle: exhaustive search over the orders compatible with program order and real-time order'])
 
 HOOK_COMMITS = []
 EBMC_PROPS = []
